@@ -85,7 +85,42 @@ func flvErrClass(err error) string {
 }
 
 // flvMux runs the real muxer.
+// flvCallerTouched: tags whose bytes (or the bytes BEHIND them in the caller's buffer) changed while they were muxed.
+var flvCallerTouched []string
+
 func flvMux(hv, ha bool, tags []flvTag) (out []byte, res string) {
+	// the bodies are handed to the muxer the way a demuxing / remuxing application holds them: consecutive
+	// sub-slices of ONE buffer, each with spare capacity behind it (the next tag's bytes). Writing a tag must not
+	// touch a single byte of that buffer.
+	total := 0
+	for _, t := range tags {
+		total += len(t.body)
+	}
+	if total <= 1<<22 {
+		arena := make([]byte, 0, total+16)
+		for _, t := range tags {
+			arena = append(arena, t.body...)
+		}
+		arena = append(arena, bytes.Repeat([]byte{0x5a}, 16)...)
+		snap := append([]byte(nil), arena...)
+		shared := make([]flvTag, len(tags))
+		off := 0
+		for i, t := range tags {
+			shared[i] = t
+			shared[i].body = arena[off : off+len(t.body)] // cap reaches to the end of the arena
+			off += len(t.body)
+		}
+		tags = shared
+		defer func() {
+			if !bytes.Equal(arena, snap) && len(flvCallerTouched) < 3 {
+				i := 0
+				for i < len(arena) && arena[i] == snap[i] {
+					i++
+				}
+				flvCallerTouched = append(flvCallerTouched, fmt.Sprintf("%d tags muxed from one %d-byte buffer: byte %d of the caller's buffer changed from %02x to %02x", len(tags), len(arena), i, snap[i], arena[i]))
+			}
+		}()
+	}
 	res = h.Safe(func() string {
 		var w bytes.Buffer
 		m, err := flv.NewMuxer(&w)
@@ -338,6 +373,12 @@ func flvLayoutOK(file []byte, hv, ha bool, tags []flvTag) bool {
 
 func c09(c *h.Ctx) {
 	r := c.R
+	defer func() {
+		for _, m := range flvCallerTouched {
+			c.Hold(false, "mux.caller_buffer_untouched", m, "changed", "unchanged")
+		}
+		flvCallerTouched = nil
+	}()
 	allReaders := []int{0, 1, 2, 3}
 
 	// 0. fixed regression cases (F20: ReadTag size+4 wrapped in uint32 and panicked).
